@@ -164,6 +164,10 @@ def run_case(case):
         bit = int(rng.integers(8))
         disc = [scared.maxabs, scared.nanmax, scared.abssum][int(rng.integers(3))]
 
+        mia_precision = [precision, 'uint32', 'uint16', 'float64'][int(rng.integers(4))]
+        if klass == 'MIAAttack':
+            info['mia_precision'] = mia_precision
+
         def make(conv):
             @scared.attack_selection_function(guesses=range(G))
             def sf(v, guesses):
@@ -177,6 +181,7 @@ def run_case(case):
                 kw['partitions'] = list(range(9))
             if klass == 'MIAAttack':
                 kw['bin_edges'] = np.linspace(-0.5, 3.5, 5)
+                kw['precision'] = mia_precision         # MIA counts: an integer accumulator dtype is a documented option
             return getattr(scared, klass)(**kw)
 
     a = make(step)
